@@ -23,7 +23,7 @@ m = {
     "setup_cmd": "./setup.sh",
     "hooks": {
         "guard": "cfg(kani)",
-        "enable": "cargo kani sets --cfg kani for every crate it compiles (no ordinary cargo build/test does); the harness crates under /verif/kani/* depend on /repo's crates by path, so the hooks are on exactly in the verification builds. The native replay driver of C09 (native/vars_driver) is built with RUSTFLAGS=--cfg kani to see the same re-exports",
+        "enable": "cargo kani sets --cfg kani for every crate it compiles (no ordinary cargo build/test does); the harness crates under /verif/kani/* depend on /repo's crates by path, so the hooks are on exactly in the verification builds. The native replay drivers that call crate-private functions (native/vars_driver, alias_driver, desc_driver, qt_driver, types_driver, tokens_driver: C09, C12, C13, C16, C23) are built with RUSTFLAGS=--cfg kani into build/native_hooks to see the same wrappers",
         "baseline_off_cmd": "cd /repo && cargo test --workspace --no-fail-fast --offline",
         "source_commits": HOOK_COMMITS,
         "add_only": True,
